@@ -518,3 +518,117 @@ func (p *Prog) bodyPrint(fn *Func) string {
 	h := sha1.Sum([]byte(sb.String()))
 	return fmt.Sprintf("%x", h[:8])
 }
+
+// ---------------------------------------------------------------- delegating wrappers
+
+// resolveDelegations: a function whose whole body hands its own parameters, in order, to a NEW private function
+// with no other caller has been turned into a wrapper around its former body (the usual first step of adding a
+// parameter or of splitting an exported entry point from its implementation).  The rules then look at the
+// implementation under the name of the wrapper; calls of the wrapper keep counting as calls of that name.
+func (p *Prog) resolveDelegations() {
+	if p.baselineKnown == nil {
+		return
+	}
+	wrappers := map[*Func]bool{}
+	for _, f := range append([]*Func{}, p.funcs...) {
+		if f.Decl.Body == nil || len(f.Decl.Body.List) != 1 || strings.Contains(f.Name, "#") {
+			continue
+		}
+		var call *ast.CallExpr
+		switch x := f.Decl.Body.List[0].(type) {
+		case *ast.ReturnStmt:
+			if len(x.Results) == 1 {
+				call, _ = x.Results[0].(*ast.CallExpr)
+			}
+		case *ast.ExprStmt:
+			call, _ = x.X.(*ast.CallExpr)
+		}
+		if call == nil || call.Ellipsis != 0 {
+			continue
+		}
+		callee := p.Callee(call)
+		if callee == nil {
+			continue
+		}
+		h := p.FuncOf[callee]
+		if h == nil || h == f || h.Decl.Body == nil || h.Obj.Exported() || p.baselineKnown[h.Name] || h.Pkg != f.Pkg {
+			continue
+		}
+		if len(p.calls[h.Obj.Origin()]) != 1 {
+			continue
+		}
+		// the wrapper's parameters, in order, are the first arguments
+		var params []types.Object
+		if f.Decl.Type.Params != nil {
+			for _, fl := range f.Decl.Type.Params.List {
+				for _, nm := range fl.Names {
+					params = append(params, p.Info.Defs[nm])
+				}
+				if len(fl.Names) == 0 {
+					params = append(params, nil)
+				}
+			}
+		}
+		if len(call.Args) < len(params) {
+			continue
+		}
+		ok := true
+		for i, po := range params {
+			id, isID := call.Args[i].(*ast.Ident)
+			if po == nil || !isID || p.Info.Uses[id] != po {
+				ok = false
+			}
+		}
+		// a method delegates on its own receiver
+		if f.Decl.Recv != nil {
+			sel, isSel := call.Fun.(*ast.SelectorExpr)
+			if !isSel || len(f.Decl.Recv.List) == 0 || len(f.Decl.Recv.List[0].Names) == 0 {
+				ok = false
+			} else if rid, isID := sel.X.(*ast.Ident); !isID || p.Info.Uses[rid] != p.Info.Defs[f.Decl.Recv.List[0].Names[0]] {
+				ok = false
+			}
+		}
+		if !ok {
+			continue
+		}
+		name := f.Name
+		if p.alias == nil {
+			p.alias = map[*types.Func]string{}
+		}
+		delete(p.Funcs, h.Name)
+		h.Name = name
+		p.Funcs[name] = h
+		p.alias[h.Obj.Origin()] = name
+		f.Name = name + "#wrapper"
+		p.alias[f.Obj.Origin()] = name // calls of the wrapper are calls of that name ...
+		p.FuncOf[f.Obj.Origin()] = h   // ... and resolve to the implementation
+		p.calls[h.Obj.Origin()] = p.calls[f.Obj.Origin()]
+		p.delegated = append(p.delegated, name)
+		wrappers[f] = true
+		if f.Obj.Exported() {
+			if p.standsForExported == nil {
+				p.standsForExported = map[*Func]bool{}
+			}
+			p.standsForExported[h] = true // the implementation of an exported entry point is not a private helper
+		}
+	}
+	if len(wrappers) > 0 {
+		// the one-line wrappers themselves carry no logic: they are not analysed as functions of their own
+		var keep []*Func
+		for _, fn := range p.funcs {
+			if !wrappers[fn] {
+				keep = append(keep, fn)
+			}
+		}
+		p.funcs = keep
+		for callee, sites := range p.calls {
+			var ks []CallSite
+			for _, cs := range sites {
+				if !wrappers[cs.Caller] {
+					ks = append(ks, cs)
+				}
+			}
+			p.calls[callee] = ks
+		}
+	}
+}
